@@ -158,7 +158,21 @@ theorem public_datetime (b : Backend) (exact : Bool) (tz : Option Int) (now : In
       .ok (dateTimeV y m d h (precFields mi s p).1 (precFields mi s p).2.1 (precFields mi s p).2.2
         (some ((offSeconds o).getD (tz.getD 0)))) := by
   rw [public_of_iso b exact tz now _ _ (parse_datetime b f y m d hv hf sep hsep h mi s p hc o ho) (rDate_ne_now f y m d _)]
-  rfl
+  cases o with
+  | naive => rfl
+  | z => rfl
+  | hh neg hh' =>
+    have hb : -86400 < (hh' : Int) * 3600 * (if neg = true then -1 else 1) ∧
+        (hh' : Int) * 3600 * (if neg = true then -1 else 1) < 86400 := by
+      simp only [OffOk] at ho
+      cases neg <;> simp <;> omega
+    simp [wrap, dateTimeV, offSeconds, hb]
+  | hhmm neg c hh' mm' =>
+    have hb : -86400 < ((hh' : Int) * 3600 + (mm' : Int) * 60) * (if neg = true then -1 else 1) ∧
+        ((hh' : Int) * 3600 + (mm' : Int) * 60) * (if neg = true then -1 else 1) < 86400 := by
+      simp only [OffOk] at ho
+      cases neg <;> simp <;> omega
+    simp [wrap, dateTimeV, offSeconds, hb]
 
 /-- `parse()` inverts `isoformat()`, `str()`, `to_iso8601_string()`, `to_rfc3339_string()` (microseconds kept) and
     `to_atom_string()` / `to_w3c_string()` (`withUs = false`: to the second) for every DateTime in UTC (`zulu`) or at a
